@@ -160,6 +160,9 @@ var StampQueries = []Query{
 	{Name: "www.example.com.", Type: 255, Class: 1},
 	{Name: "txt.example.com.", Type: 1, Class: 1},
 	{Name: "multi.example.com.", Type: 1, Class: 1},
+	// types that differ from A / TXT by a multiple of 256 (CAA = 257, 272 = TXT + 256)
+	{Name: "www.example.com.", Type: 257, Class: 1},
+	{Name: "txt.example.com.", Type: 272, Class: 1},
 }
 
 // CopyDir copies a (small) directory tree.
